@@ -745,8 +745,8 @@ def did_services(u):
         dict(name='fn_rdbi_request_2', params=[('d1', 'Z'), ('d2', 'Z')], result='Y', call=request(lambda c, d1, d2: c.read_data_by_identifier([d1, d2]), cfg())),
         dict(name='fn_rdbi_interpret', params=[('d', ('seqx', 9, 1))], result='S',
              call=interpret(lambda c: c.read_data_by_identifier([0xF190, 0x0102]), 0x62,
-                            lambda r: [len(r.service_data.values)] + [x for k in sorted(r.service_data.values, key=lambda z: z if isinstance(z, int) else 0)
-                                                                      for x in (k, ('bytes', r.service_data.values[k]))], cfg())),
+                            lambda r: [len(r.service_data.values)] + [x for k in sorted(r.service_data.values, key=lambda z: z if isinstance(z, int) else hash(z))
+                                                                      for x in (k if isinstance(k, int) else hash(k), ('bytes', r.service_data.values[k]))], cfg())),
         dict(name='fn_rdbi_request_2_default', params=[('d1', 'Z'), ('d2', 'Z')], result='Y',
              call=request(lambda c, d1, d2: c.read_data_by_identifier([d1, d2]), cfg(True))),
     ]
@@ -771,7 +771,10 @@ def files(u):
             ('Fn_ClientFormats.v', 'udsoncan/client.py (read_memory_by_address, write_memory_by_address, request_download: the configured server formats applied to the caller\'s MemoryLocation)',
              lambda u: [sp for sp in client_state(u) if 'formats' in sp['name']]),
             ('Fn_Composite.v', 'udsoncan/common/DynamicDidDefinition.py (add, get_alfid), MemoryLocation.py', composite),
-            ('Fn_Did.v', 'udsoncan/client.py (read_data_by_identifier), services/ReadDataByIdentifier.py, common/dids.py', did_services),
+            ('Fn_Did.v', 'udsoncan/client.py (read_data_by_identifier), services/ReadDataByIdentifier.py (make_request), common/dids.py',
+             lambda u: [sp for sp in did_services(u) if 'request' in sp['name']]),
+            ('Fn_DidInt.v', 'udsoncan/client.py (read_data_by_identifier), services/ReadDataByIdentifier.py (interpret_response), common/dids.py',
+             lambda u: [sp for sp in did_services(u) if 'interpret' in sp['name']]),
             ('Fn_Unlock.v', 'udsoncan/client.py (unlock_security_access, request_seed, send_key; send_request replaced by two scripted replies)', unlock),
             ('Fn_SendRequest.v', 'udsoncan/client.py (send_request, on a symbolic clock)',
              lambda u: [sp for sp in send_request(u) if not any(k in sp['name'] for k in CTX_KINDS)]),
